@@ -127,9 +127,25 @@ func runOnce(t *testing.T, e *Engine, ch *Choices, cfg *RunCfg) (o *Outcome) {
 		// it. The tasks have all ended by then (or the run was Fatal): what remains are goroutines the
 		// LIBRARY started (a janitor, a reporter). The simulator schedules caller tasks only.
 		if r := recover(); r != nil {
-			if msg := fmt.Sprint(r); o != nil && strings.HasPrefix(msg, "deadlock:") && strings.Contains(msg, "bubble") {
-				o.Unsupported = "goroutines started by the library were still parked when the run ended (" + msg + "); the simulator schedules caller tasks only"
-				return
+			msg := fmt.Sprint(r)
+			if strings.HasPrefix(msg, "deadlock:") && strings.Contains(msg, "bubble") {
+				if o != nil && strings.Contains(msg, "main bubble goroutine has exited") {
+					// the run is over and has its outcome; goroutines the library started (a janitor, a
+					// timed hand-off) are still parked and stay behind in the finished bubble
+					o.Probes["goroutines of the library were still parked when the run ended"]++
+					if o.post != nil {
+						o.post(o)
+						o.post = nil
+					}
+					return
+				}
+				// every goroutine of the bubble blocked while the run was in progress, and the scheduler's
+				// own block detection did not see it as a task stuck in the library: not representable
+				if o == nil {
+					o = newOutcome()
+				}
+				o.Unsupported = "synctest: " + msg + " (while the run was in progress; the simulator schedules caller tasks only)"
+				unsupportedExit(o)
 			}
 			panic(r)
 		}
@@ -141,7 +157,7 @@ func runOnce(t *testing.T, e *Engine, ch *Choices, cfg *RunCfg) (o *Outcome) {
 			// every task has ended; whatever else is alive in the bubble was started by the library
 			synctest.Wait()
 			if n := runtime.NumGoroutine() - g0; n > 0 {
-				o.Unsupported = fmt.Sprintf("%d goroutine(s) started by the library were alive when the run's tasks had all ended; the simulator schedules caller tasks only", n)
+				o.Probes["goroutines of the library alive when the run's tasks had all ended"] += n
 			}
 		}
 		if o.Unsupported != "" {
